@@ -3,7 +3,7 @@ From Coq Require Import List ZArith NArith Bool.
 Import ListNotations.
 From Coq Require Import Permutation.
 From GS Require Import HeapLoop Num NumZ EventLoop Kernel Heap.
-From GS.Proofs Require Import HeapLoopP Aux EventLoopP KernelP KernelP3 HeapP HeapEvP.
+From GS.Proofs Require Import HeapLoopP Aux EventLoopP KernelP KernelP3 HeapP HeapB HeapEvP.
 
 (** Requests accepted later carry larger sequence numbers. *)
 Theorem C03_sequence_is_scheduling_order :
@@ -138,6 +138,22 @@ Example C03_heapq_example :
        match heappop (ev_lt Z_ops) h with None => [] | Some (m, h') => ev_pl m :: drain n' h' end end) 9 h
   = [6; 7; 0; 1; 2; 3; 4; 5].
 Proof. vm_compute. split; reflexivity. Qed.
+
+(** the premises of [C03_heapq_pop_is_the_selected_event] are met by that array: it has the heap
+    condition (the computed check is sound for it), distinct sequence numbers, and holds the events *)
+Example C03_heapq_example_premises :
+  let evs := map (fun k => mkEv (if Nat.ltb 5 k then 3%Z else 5%Z) (N.of_nat k) k) (seq 0 8) in
+  let h := fold_left (heappush (ev_lt Z_ops)) evs [] in
+  heap_inv (ev_lt Z_ops) h /\ NoDup (map (@ev_seq Z nat) h) /\ Permutation evs h.
+Proof.
+  cbv zeta. split; [apply heap_invb_sound; vm_compute; reflexivity|]. split.
+  - vm_compute. repeat (constructor; [simpl; intuition discriminate|]). constructor.
+  - rewrite <- fold_left_rev_right.
+    assert (H : forall l : list (event Z nat), Permutation l (fold_right (fun y x => heappush (ev_lt Z_ops) x y) [] l)).
+    { induction l as [|e l IH]; simpl; [constructor|].
+      eapply perm_trans; [apply perm_skip, IH|]. apply Permutation_sym, heappush_perm. }
+    eapply perm_trans; [apply Permutation_rev|]. apply H.
+Qed.
 
 Example C03_example :
   snd (el_run Z_ops (el_init Z_ops)
